@@ -517,6 +517,9 @@ def step_suite(seed, tier):
             stats['stalled'] = stats.get('stalled', 0) + 1
             continue
         except Exception as e:
+            if isinstance(e, ValueError) and 'NaN acceptance' in str(e):
+                stats['nan_density'] = stats.get('nan_density', 0) + 1   # a NaN density: C12/C14, not C01
+                continue
             import traceback
             errors.append({'case': c, 'exception': repr(e), 'traceback': traceback.format_exc()})
             continue
